@@ -8,7 +8,7 @@ TRUST = ("Trusted base: z3 5.1.0, the symx executor and its proxies (engine/), t
 CLAIMS = {
  "C20": ("bounded symbolic execution (symx over z3) of the real utils.mult_matrix/apply_matrix_*/translate_matrix and utils.Plane",
          "For all real-valued matrices, points and rectangles the affine laws hold (one z3 query each, unsat of the negation); apply_matrix_rect is the tight "
-         "hull on all 121 paths; for every add/remove/find/iterate sequence within the bound and ALL real box/query coordinates in the stated window "
+         "hull on all 121 paths, also for translations up to 2^40 (far beyond the library's INF sentinel); for every add/remove/find/iterate sequence within the bound and ALL real box/query coordinates in the stated window "
          "the real Plane agrees with a brute-force list model. Bounded model checking of the real code: holds for every value inside the bounds, nothing is claimed outside.",
          "4.C20"),
 }
@@ -24,7 +24,7 @@ CLAIMS.update({
          "4.C03"),
  "C14": ("bounded symbolic execution (symx, symbolic bytes) of the real PSBaseParser scanners and nexttoken() loop",
          "From every scanner state (with seeded partial tokens), for ALL byte strings of N symbolic bytes (256 values each) followed by end of input, the tokenizer raises nothing "
-         "but PSEOF, yields positions that are monotone and inside the input, makes bounded progress, and gives the same token sequence for BUFSIZ 4096 and every smaller size. N=3 quick, 4 thorough.",
+         "but PSEOF, yields positions that are monotone and inside the input, makes bounded progress, and gives the same token sequence for BUFSIZ 4096 and every smaller size. N=3 quick, 4 thorough. Beyond the symbolic bound: each of 15 lexical forms repeated 4095..70000 times (read-buffer size, CPython's 4300-digit integer limit) at three buffer sizes, concrete.",
          "4.C14"),
 })
 CLAIMS["C04"] = ("bounded symbolic execution (symx) of the real PDFPage.get_pages / create_pages / __init__ and PDFPageInterpreter.process_page + begin_page",
@@ -55,7 +55,7 @@ CLAIMS["C08"] = ("bounded symbolic execution (symx, real arithmetic) of the real
 CLAIMS["C09"] = ("bounded symbolic execution (symx, real arithmetic) of the real group_objects / LTTextLine*.add / find_neighbors / analyze on two objects with symbolic boxes and symbolic LAParams",
          "For ALL box coordinates and ALL line_overlap in [0,1), char_margin, word_margin: two consecutive glyphs share a line exactly when they overlap vertically by more than line_overlap x min height and are "
          "closer than char_margin x max width, and a space is inserted exactly when the gap exceeds word_margin x size; the neighbour relation of two lines equals the documented close/same-size/aligned rule "
-         "(both orientations); a single column reads top to bottom and a left column before a right one for every boxes_flow in (-1,1) and None; the layout of two glyphs is unchanged under scaling by 1/4..8.",
+         "(both orientations); three left-aligned lines of sizes 10/20 at ALL heights are boxed exactly by the connected components of the (asymmetric) neighbour relation; a single column reads top to bottom and a left column before a right one for every boxes_flow in (-1,1) and None; the layout of two glyphs is unchanged under scaling by 1/4..8.",
          "4.C09")
 CLAIMS["C02"] = ("bounded symbolic execution (symx) of the real PDFXRefStream.get_pos/get_objids, PDFDocument.getobj/_getobj_objstm/read_xref_from/find_xref and PDFXRef.load",
          "For all /Index ranges (symbolic starts), field widths, ALL entry bytes and every object number the cross-reference stream decoding equals ISO 7.5.8; for every revision table (each object absent/direct/"
@@ -75,7 +75,7 @@ CLAIMS["C18"] = ("bounded symbolic execution (symx, symbolic bytes) of the real 
 CLAIMS["C15"] = ("symbolic execution of the real CMapDB._load_data and ImageWriter._create_unique_image_name: CrossHair (symbolic str over all of Unicode, budgeted) plus symx (every name over an 8-letter hostile alphabet, exhaustive)",
          "With the filesystem replaced by a recording stub whose exists() answers are symbolic, every path that a CMap name makes the library probe or open lies directly inside one of the two character-map "
          "directories, and the path chosen for an exported image lies directly inside the output directory, was reported non-existing and is the unique first free candidate - confirmed over all paths for "
-         "every name of length <= 4 over the alphabet '/', '.', NUL, backslash, letters, ':', '~'; CrossHair searches names of length <= 5 over all code points within its time budget (no counterexample; not a confirmation).",
+         "every name of length <= 4 over the alphabet '/', '.', NUL, backslash, letters, ':', '~', and for every name of length <= 7 over './a' with CMAP_PATH=/e/a/ (sibling directories such as ../aa/a); CrossHair searches names of length <= 5 over all code points within its time budget (no counterexample; not a confirmation).",
          "4.C15")
 CLAIMS["C11"] = ("symbolic execution (symx; strings as symbolic choices over a hostile alphabet) of the real TextConverter / XMLConverter.receive_layout and utils.enc",
          "For every glyph text, font name and figure name of length <= 3 over an alphabet of XML-special, quote, control, non-ASCII and ordinary characters: the XML output parses with an independent XML parser and "
@@ -85,7 +85,7 @@ CLAIMS["C11"] = ("symbolic execution (symx; strings as symbolic choices over a h
 CLAIMS["C06"] = ("symbolic execution (symx) of the real EncodingDB.get_encoding, name2unicode, PDFSimpleFont.to_unichr and PDFType1Font/PDFType3Font width handling",
          "For every Differences array of up to 3 items (codes and glyph names by symbolic choice) over each base encoding the result is the base table overlaid per ISO 9.6.6 and the shared tables are untouched; "
          "name2unicode equals the Adobe Glyph List algorithm on uni/u names with symbolic hex digits and on underscore/dot compositions; ToUnicode precedes the encoding, else (cid:N); for symbolic FirstChar, "
-         "Widths, MissingWidth, code and Type 3 FontMatrix the advance is Widths[code-FirstChar] or MissingWidth scaled by the font matrix. Static tables (base encodings, glyph list, standard-14 metrics) are data, not claimed.",
+         "Widths, MissingWidth, code and Type 3 FontMatrix the advance is Widths[code-FirstChar] or MissingWidth scaled by the font matrix; init_resources on a Font dictionary of three fonts, each inline or indirect, in every order, caching on/off, gives every resource name the font of its own dictionary. Static tables (base encodings, glyph list, standard-14 metrics) are data, not claimed.",
          "4.C06")
 CLAIMS["C07"] = ("symbolic execution (symx) of the real IdentityCMap(.Byte).decode, CMap.decode + FileCMap.add_code2cid, CMapParser.do_keyword (bfchar/bfrange), get_widths/get_widths2 and the CMapDB caches",
          "For all byte strings up to 5 symbolic bytes the identity CMaps give the big-endian 2-byte (1-byte) codes and ignore a trailing odd byte; for every subset of the listed 1- and 2-byte codes and every string "
@@ -110,7 +110,7 @@ CLAIMS["C13"] = ("symbolic execution (symx) of the typed accessors, tree/chain w
          "4.C13")
 CLAIMS["C12"] = ("symbolic execution (symx) of the operations that touch process-wide or cached state (get_encoding, use_cmap, interning, init_resources, get_font, resolve_all/decipher_all, CMapDB caches), plus small end-to-end call histories driven by symbolic choices",
          "PARTIAL by design: arbitrary histories and interleavings of extract_* calls are whole-program runs; the claim is reduced to frame conditions - each operation leaves the shared tables / the document's own "
-         "dictionaries unchanged and returns what it returns in isolation, for every bounded history (Differences arrays, 3-call get_font histories over fonts sharing a descendant, 3-call CMapDB histories, "
+         "dictionaries unchanged and returns what it returns in isolation, for every bounded history (Differences arrays, 3-call get_font histories over six fonts - two sharing a descendant, two without /Encoding of which one recovers it from an embedded font program - with every EncodingDB table compared before/after, 3-call CMapDB histories, "
          "2 earlier interns) - and checked end to end on every 3-call history over two documents that share object numbers and font names, with caching on/off, page-at-a-time vs together, and interleaved "
          "page iterators. The inventory of module/class-level mutable containers is recomputed from the AST on every run.",
          "4.C12")
